@@ -5,10 +5,10 @@
 extern int nv_re_depthhit;
 int peek_rstr_is_simple(struct rstr *rs);
 
-static const char *lits[] = {"a", "B", "-", " ", "\xc3\xa9", "|", "^", "b"};
-#define NLIT 8
-static const char *lalpha[] = {"a", "b", "B", "-", " ", "\xc3\xa9"};
-#define NLA 6
+static const char *lits[] = {"a", "B", "-", " ", "\xc3\xa9", "|", "^", "b", "~", "_", "\xc3\x89", "@"};
+#define NLIT 12
+static const char *lalpha[] = {"a", "b", "B", "-", " ", "\xc3\xa9", "^", "\xc3\x89", "\x7f", "`"};
+#define NLA 10
 
 static char (*subjects)[16];
 static long nsubj;
@@ -130,8 +130,8 @@ int main(int argc, char **argv)
 	int litlen, linelen, clen, a, n, i;
 	long idx = 0, npat = 0;
 	nv_init(argc, argv);
-	litlen = atoi(nv_arg(argc, argv, "lit", nv_thorough ? "3" : "3"));
-	linelen = atoi(nv_arg(argc, argv, "len", nv_thorough ? "6" : "4"));
+	litlen = atoi(nv_arg(argc, argv, "lit", nv_thorough ? "3" : "2"));
+	linelen = atoi(nv_arg(argc, argv, "len", nv_thorough ? "5" : "4"));
 	clen = atoi(nv_arg(argc, argv, "clen", nv_thorough ? "4" : "3"));
 	gen_subjects(linelen);
 	for (n = 0; n <= litlen; n++) {
